@@ -237,6 +237,13 @@ pub fn run(tier: Tier) -> i32 {
         acc.evaluations -= 1;
         judge_text(&ls, text, "token-string", acc)
     });
+    // macro tokens around the call form: operators, parentheses (also in pairs), argument
+    // lists - so that seven symbols reach texts like `cm 2 ) * ( ( 1 , 2 )`
+    let sw = Sweep { name: "strings-sym-call-macros", tokens: vec!["cm", "*", "-", "2", "x", "(", ")", "( (", ") )", "1 , 2", ","], max_len: if thorough { 8 } else { 7 }, table: ut.clone(), sep: " " };
+    sweep_strings(&sw, &mut rep, &|text, _i, acc| {
+        acc.evaluations -= 1;
+        judge_text(&ls, text, "token-string", acc)
+    });
     let sw = Sweep { name: "strings-f64", tokens: vec!["(", ")", ",", "1", ".5", "x", "+", "-", "*", "max", "sin", "PI", "§"], max_len: if thorough { 6 } else { 5 }, table: lf.table.clone(), sep: " " };
     sweep_strings(&sw, &mut rep, &|text, _i, acc| {
         acc.evaluations -= 1;
